@@ -896,6 +896,14 @@ def h_cursor_count(kind):
                 and exact(some_of(v[1][1]))
         else:
             ok = exact(v)
+            if not ok and kind == 'count' and v[0] == 'int':
+                # core's default count() run on the crate's own inner iterator from exactly where the receiver
+                # stood: the number of items that iterator's next() yields -- which its own schema settles
+                for e in p.events:
+                    if e[0] == 'counted' and len(e) > 3 and (e[2] is v[1] or z.entails_eq(e[2], v[1])) \
+                            and len(e[3][0]) == 1 and e[3][0][0][0] == mid \
+                            and z.entails_eq(e[3][0][0][1], f0) and z.entails_eq(e[3][0][0][2], b0):
+                        ok = True
         ctx.req('HINT', ok, nm, 'must report exactly the number of elements not yet yielded', p)
         ctx.req('OUT', not p.reads and not p.writes and not p.lens, nm, 'must not change anything', p)
     return h
@@ -947,6 +955,11 @@ def h_pop_count(kind):
                 and exact(some_of(v[1][1]))
         else:
             ok = exact(v)
+            if not ok and kind == 'count' and v[0] == 'int':
+                for e in p.events:
+                    if e[0] == 'counted' and len(e) > 3 and (e[2] is v[1] or z.entails_eq(e[2], v[1])) \
+                            and len(e[3][1]) == 1 and e[3][1][0][0] == mid and z.entails_eq(e[3][1][0][1], n):
+                        ok = True       # (core's default count() on the crate's own inner iterator, untouched)
         ctx.req('HINT', ok, nm, 'must report exactly the number of elements still held', p)
     return h
 
